@@ -8,7 +8,7 @@ seed = None
 if args[:1] == ['--seed']:
     seed, args = args[1], args[2:]
 man = json.load(open(os.path.join(here, 'MANIFEST.json')))
-ids = args or [p['id'] for p in man['properties']]
+ids = args or [p['property_id'] for p in man['checks']]
 os.makedirs(os.path.join(here, 'thorough'), exist_ok=True)
 out = os.path.join(here, 'thorough', 'RESULTS.json')
 res = json.load(open(out)) if os.path.exists(out) else {}
